@@ -16,6 +16,19 @@ PAT_NOTE = ("Trusted: Lean kernel + standard axioms; the pattern model (lean/Iso
             "unmodelled in the evidence; floats are exact rationals in the model (dyadic inputs or tolerance 1e-9 in the comparison).")
 
 CHECKS = {
+    "C03": dict(
+        text="Theorems for ALL event dictionaries and default assignments: resolve (= Event.__init__, step by step) equals the "
+             "declarative spec incl. which error is raised; unknown key / note+degree / untyped rejected and nothing is played; type "
+             "and field precedence (velocity > amp > amplitude, dur > duration, explicit > timeline default > library default); each "
+             "voice = key[degree] (C13 degree formula) + 12*octave + transpose; rests and inactive events silent; dispatch table "
+             "(each type calls exactly the matching device method once with the resolved arguments); arguments resolved once per "
+             "event. Key whitelist, constants and library defaults are tables regenerated from /repo on every run.",
+        design="DESIGN.md §3 C03, notes/NOTES-C03.md",
+        note="Trusted: Lean kernel + standard axioms; model lean/IsobarV/Event/Model.lean tied to isobar/timelines/event.py and "
+             "Track.perform_event by the correspondence (random dictionaries through a real Track on a recording device, all 2^7 "
+             "type-key subsets) and an independent Python oracle; patch/SignalFlow events are compared model-vs-implementation only; "
+             "the docs' `scale` key is accepted and ignored by code, model and oracle alike (documentation mismatch, not in the property).",
+        technique="Lean 4 refinement theorem (resolve = declarative spec) + decision-logic corollaries + generated tables + differential correspondence"),
     "C15": dict(
         text="Theorems over Rat for ALL control-point lists, segment lengths (incl. 0), counts and run lengths, easing f a parameter "
              "(identity proved an easing; cosine assumed f 0 = 0, f 1 = 1, 0 <= f <= 1): the model equals the closed-form reference "
